@@ -107,6 +107,8 @@ type Query struct {
 	O  *triple.Object
 	T  *triple.Triple
 	Lo storage.LookupOptions // copied for every call: storage/memory writes into the options it is given
+	// next: asked right after this one through the same handle, with a fresh options value (back-to-back pairs)
+	next *Query
 }
 
 func (q *Query) desc() QDesc {
@@ -432,6 +434,52 @@ func crossOp(rng *rand.Rand, q *Query) *Query {
 	return &r
 }
 
+// anchorPair: two lookups inside one time window that differ ONLY in the anchor of a temporal predicate argument
+// (same predicate id), the first one about a stored triple so that its answer is not empty; asked back to back.
+func (v *vocab) anchorPair(rng *rand.Rand, present []*triple.Triple) *Query {
+	var cands []*triple.Triple
+	for _, t := range present {
+		if t.Predicate().Type() == predicate.Temporal {
+			cands = append(cands, t)
+		}
+	}
+	if len(cands) == 0 {
+		return nil
+	}
+	t := cands[rng.Intn(len(cands))]
+	var others []*predicate.Predicate
+	for _, p := range v.preds {
+		if p.Type() == predicate.Temporal && p.ID() == t.Predicate().ID() && p.String() != t.Predicate().String() {
+			others = append(others, p)
+		}
+	}
+	if len(others) == 0 {
+		return nil
+	}
+	ops := []string{"Objects", "Subjects", "TriplesForPredicate", "TriplesForSubjectAndPredicate", "TriplesForPredicateAndObject"}
+	lo := storage.LookupOptions{}
+	switch rng.Intn(3) {
+	case 0:
+		lo.LowerAnchor, lo.UpperAnchor = v.anchors[0], v.anchors[4] // 2011 .. 2015: every anchor of the vocabulary
+	case 1:
+		lo.LowerAnchor = v.anchors[0]
+	case 2:
+		lo.UpperAnchor = v.anchors[4]
+	}
+	if rng.Intn(4) == 0 {
+		lo.MaxElements = 1 + rng.Intn(3)
+	}
+	q1 := &Query{Op: ops[rng.Intn(len(ops))], S: t.Subject(), P: t.Predicate(), O: t.Object(), T: t, Lo: lo}
+	q2 := *q1
+	q2.P = others[rng.Intn(len(others))]
+	if rng.Intn(3) == 0 {
+		q3 := *q1 // ... and the first one once more afterwards
+		q2.next = &q3
+	}
+	q1.next = &q2
+	return q1
+}
+
 // argVariant: the same operation and options with ONE argument replaced (requests whose keys differ in one UUID only)
 func (v *vocab) argVariant(rng *rand.Rand, q *Query, present []*triple.Triple) *Query {
 	r := *q
@@ -520,6 +568,7 @@ type SeqCase struct {
 	Seed    int64   `json:"seed"`
 	Faults  bool    `json:"faults"`
 	Cancels bool    `json:"cancels"`
+	Big     int     `json:"big,omitempty"` // sized history: every streaming lookup has more than this many results
 	Ops     []SeqOp `json:"ops"`
 }
 
@@ -678,8 +727,14 @@ func genSeq(id int, seed int64, faults, cancels bool) SeqCase {
 				q = v.argVariant(rng, pool[rng.Intn(len(pool))], presentList(hgraph[h]))
 				pool = append(pool, q)
 			default:
-				q = v.randQuery(rng, presentList(hgraph[h]))
-				pool = append(pool, q)
+				q = nil
+				if rng.Intn(3) == 0 {
+					q = v.anchorPair(rng, presentList(hgraph[h]))
+				}
+				if q == nil {
+					q = v.randQuery(rng, presentList(hgraph[h]))
+					pool = append(pool, q)
+				}
 			}
 			if faults && rng.Intn(4) == 0 {
 				c.readFaults[c.nReads] = rng.Intn(3)
@@ -689,7 +744,10 @@ func genSeq(id int, seed int64, faults, cancels bool) SeqCase {
 			lm, lp := q.Lo, q.Lo
 			ml, pl := &lm, &lp
 			how := "fresh"
-			if rng.Intn(100) < 40 {
+			if q.next != nil {
+				again, againH = q.next, h
+			}
+			if q.next == nil && rng.Intn(100) < 40 {
 				if len(slots) == 0 || (len(slots) < 3 && rng.Intn(5) == 0) {
 					slots = append(slots, &loSlot{ml, pl, q, h})
 					how = "kept"
@@ -760,6 +818,67 @@ func genSeq(id int, seed int64, faults, cancels bool) SeqCase {
 			pa := q.runLo(ctx, plainG[hgraph[h]], pl)
 			cs.Ops = append(cs.Ops, SeqOp{H: h, K: "read", G: hgraph[h], Q: &d, LoStr: lostr, Memo: &ma, Plain: &pa, Fwd: fwd, LoUse: how})
 		}
+	}
+	return cs
+}
+
+// genBig: one sized history.  A graph in which every streaming lookup has well over a thousand results (a subject with
+// n triples, an object with n triples, a subject/object pair with n predicates), each lookup asked twice through one
+// handle with nothing written in between, then a removal and once more.
+func genBig(id int, seed int64) SeqCase {
+	rng := rand.New(rand.NewSource(seed))
+	n := 1025 + rng.Intn(476)
+	ctx := withTid(-1)
+	c := newCtl(false, 0)
+	inner := &gStore{in: memory.NewStore(), c: c}
+	memo := memoization.New(inner)
+	plain := memory.NewStore()
+	cs := SeqCase{Kind: "seq", ID: id, Seed: seed, Big: n}
+	mh := must(memo.NewGraph(ctx, "?a"))
+	pg := must(plain.NewGraph(ctx, "?a"))
+	c.takeLog()
+	cs.Ops = append(cs.Ops, SeqOp{H: 0, K: "open", G: 0, Fwd: []InnerEv{}})
+	s0 := must(node.Parse("/big<s>"))
+	o0 := triple.NewNodeObject(must(node.Parse("/big<o>")))
+	p0 := must(predicate.Parse(`"p"@[]`))
+	var ts []*triple.Triple
+	for i := 0; i < n; i++ {
+		oi := triple.NewNodeObject(must(node.Parse(fmt.Sprintf("/o<%04d>", i))))
+		si := must(node.Parse(fmt.Sprintf("/s<%04d>", i)))
+		pi := must(predicate.Parse(fmt.Sprintf(`"q%04d"@[]`, i)))
+		ts = append(ts, must(triple.New(s0, p0, oi)), must(triple.New(si, p0, o0)), must(triple.New(s0, pi, o0)))
+	}
+	write := func(k string, w []*triple.Triple) {
+		var err, perr error
+		if k == "add" {
+			err, perr = mh.AddTriples(ctx, w), pg.AddTriples(ctx, w)
+		} else {
+			err, perr = mh.RemoveTriples(ctx, w), pg.RemoveTriples(ctx, w)
+		}
+		cs.Ops = append(cs.Ops, SeqOp{H: 0, K: k, G: 0, Triples: tstrings(w), Memo: &Ans{Elems: []string{}, Err: err != nil},
+			Plain: &Ans{Elems: []string{}, Err: perr != nil}, Fwd: c.takeLog()})
+	}
+	read := func(q *Query) {
+		lo := q.Lo
+		d := q.descLo(&lo)
+		lostr := lo.String()
+		ma := q.run(ctx, mh)
+		fwd := c.takeLog()
+		pa := q.run(ctx, pg)
+		cs.Ops = append(cs.Ops, SeqOp{H: 0, K: "read", G: 0, Q: &d, LoStr: lostr, Memo: &ma, Plain: &pa, Fwd: fwd, LoUse: "fresh"})
+	}
+	write("add", ts)
+	streaming := []string{"Objects", "Subjects", "PredicatesForSubject", "PredicatesForObject", "PredicatesForSubjectAndObject",
+		"TriplesForSubject", "TriplesForPredicate", "TriplesForObject", "TriplesForSubjectAndPredicate",
+		"TriplesForPredicateAndObject", "Triples"}
+	for _, op := range streaming {
+		q := &Query{Op: op, S: s0, P: p0, O: o0, T: ts[0]}
+		read(q)
+		read(q)
+	}
+	write("remove", ts[:3])
+	for _, op := range streaming[:3] {
+		read(&Query{Op: op, S: s0, P: p0, O: o0, T: ts[0]})
 	}
 	return cs
 }
@@ -1190,6 +1309,7 @@ func main() {
 	n := flag.Int("n", 100, "number of histories (seq)")
 	seed := flag.Int64("seed", 1, "PRNG seed")
 	faults := flag.Bool("faults", false, "seq: inject failures of the wrapped store")
+	big := flag.Bool("big", false, "seq: append one sized history (every streaming lookup has 1025..1500 results, asked twice)")
 	cancels := flag.Bool("cancels", false, "seq: some lookups are cancelled by the caller after k elements")
 	budget := flag.Int("budget", 200000, "explore: maximum number of schedules per scenario")
 	prof := flag.String("cpuprofile", "", "write a CPU profile")
@@ -1208,6 +1328,9 @@ func main() {
 		master := rand.New(rand.NewSource(*seed))
 		for i := 0; i < *n; i++ {
 			enc.Encode(genSeq(i, master.Int63(), *faults, *cancels))
+		}
+		if *big {
+			enc.Encode(genBig(*n, master.Int63()))
 		}
 	case "tiny":
 		sc := bufio.NewScanner(os.Stdin)
